@@ -1,10 +1,117 @@
 /-
-  Judges: executable forms of the property statements, evaluated on the implementation's output.
+  Judges: executable forms of the property statements, evaluated by the driver on the
+  specification layer and on the implementation's output (DESIGN §2.1, §3.2).
 -/
 import CF.Codec
+import CF.Spec.Align
+import CF.Spec.GrammarObs
+import CF.Spec.WF
 namespace CF.Judges
 open CF CF.Codec
 
-def handle (_args : List String) : String := "badreq"
+def specItemStr : SpecItem → String
+  | .sec s => secStr s
+  | .err e => secErrStr e
+
+/-- the specification-level parse of a byte source -/
+def specOf (src : List Ev) : List SpecItem := specSecs 1 ((rawLines validUtf8 src).map Raw.ofRes)
+
+def secsOf (items : List SpecItem) : Option (List Sec) :=
+  items.mapM (fun i => match i with | .sec s => some s | .err _ => none)
+
+def noConflictB (ss : List Sec) : Bool :=
+  ss.all (fun s₁ => ss.all (fun s₂ =>
+    (s₁.hdr.ref.name != s₂.hdr.ref.name || s₁.hdr.ref.size == s₂.hdr.ref.size) &&
+    (s₁.hdr.qry.name != s₂.hdr.qry.name || s₁.hdr.qry.size == s₂.hdr.qry.size)))
+
+/-- `WFFile` decided: the sections, or the reason the file is ill-formed -/
+def wfOf (src : List Ev) : Except String (List Sec) :=
+  match secsOf (specOf src) with
+  | none => .error "structure"
+  | some ss =>
+    if !(ss.all (fun s => decide s.sumsMatch)) then .error "sums"
+    else if !(noConflictB ss) then .error "conflict"
+    else .ok ss
+
+def specSecsReply (src : List Ev) : String :=
+  let items := specOf src
+  join " ; " (items.map specItemStr ++ (if items.all SpecItem.isSec then ["done"] else []))
+
+def specWfReply (src : List Ev) : String :=
+  match wfOf src with
+  | .ok ss => s!"wf {ss.length}"
+  | .error r => s!"illformed {r}"
+
+def specHitsReply (src : List Ev) (ivs : List String) : String :=
+  match wfOf src with
+  | .error r => s!"illformed {r}"
+  | .ok ss =>
+    join " ; " ("wf" :: ivs.map (fun t =>
+      match ivOf t with
+      | some (.ok iv) =>
+        (match hits ss iv with
+         | [] => "none"
+         | hs => "some" ++ String.join (hs.map (fun p => " " ++ pairStr p)))
+      | _ => "badiv"))
+
+def specBlocksReply (src : List Ev) : String :=
+  match wfOf src with
+  | .error r => s!"illformed {r}"
+  | .ok ss => "wf" ++ String.join ((fileBlocks ss).map (fun p => " " ++ pairStr p))
+
+/-- `p` is a strand-directed sub-range of block `blk`, the same on both sides -/
+def isSubOf (blk p : Pair) : Bool :=
+  p.ref.contig == blk.ref.contig && p.ref.strand == blk.ref.strand &&
+  p.qry.contig == blk.qry.contig && p.qry.strand == blk.qry.strand &&
+  decide (blk.ref.lo ≤ p.ref.lo) && decide (p.ref.lo ≤ p.ref.hi) && decide (p.ref.hi ≤ blk.ref.hi) &&
+  (let o1 := blk.ref.offOf (match blk.ref.strand with | .pos => p.ref.lo | .neg => p.ref.hi)
+   let o2 := blk.ref.offOf (match blk.ref.strand with | .pos => p.ref.hi | .neg => p.ref.lo)
+   p == blk.sub o1 o2)
+
+def pairOfStr (s : String) : Option Pair :=
+  match s.splitOn ">" with
+  | [r, q] =>
+    (match ivOf r, ivOf q with
+     | some (.ok r), some (.ok q) => some ⟨r, q⟩
+     | _, _ => none)
+  | _ => none
+
+/-- C01 on the implementation's answer: every pair is equal-length, on the interval's contig and
+    strand, inside the interval, and a sub-range of one block of the file -/
+def soundReply (src : List Ev) (ivs : String) (pairs : List String) : String :=
+  match wfOf src, ivOf ivs with
+  | .ok ss, some (.ok iv) =>
+    let blocks := fileBlocks ss
+    match pairs.mapM pairOfStr with
+    | none => "badreq"
+    | some ps =>
+      match ps.find? (fun p => !(p.ref.count == p.qry.count && p.ref.contig == iv.contig && p.ref.strand == iv.strand &&
+                                 decide (iv.lo ≤ p.ref.lo) && decide (p.ref.hi ≤ iv.hi) && blocks.any (fun b => isSubOf b p))) with
+      | none => "ok"
+      | some p => s!"fail {pairStr p}"
+  | .error r, _ => s!"illformed {r}"
+  | _, _ => "badreq"
+
+/-- C04: the expected tiling of a section and whether its records add up -/
+def specStepReply (hdr : List UInt8) (recs : List (List UInt8)) : String :=
+  match Hdr.parse hdr, recs.mapM (fun r => match Rec.parse r with | .ok r => some r | .error _ => none) with
+  | .ok h, some rs =>
+    let s : Sec := ⟨h, rs⟩
+    let items := (expected h h.ref.start h.qry.start rs).map (fun (p, r) => s!"P {pairStr p} | {recStr r}")
+    join " ; " (items ++ [if decide s.sumsMatch then "match" else "nomatch"])
+  | _, _ => "badinput"
+
+def handle (args : List String) : String :=
+  match args with
+  | ["secs", src] => match srcOf src with | some s => specSecsReply s | none => "badreq"
+  | ["wf", src] => match srcOf src with | some s => specWfReply s | none => "badreq"
+  | ["hits", src, ivs] => match srcOf src with | some s => specHitsReply s (ivs.splitOn ",") | none => "badreq"
+  | ["blocks", src] => match srcOf src with | some s => specBlocksReply s | none => "badreq"
+  | "sound" :: src :: iv :: pairs => match srcOf src with | some s => soundReply s iv pairs | none => "badreq"
+  | ["step", hdr, recs] =>
+    (match unhex hdr, (recs.splitOn ",").mapM unhex with
+     | some h, some rs => specStepReply h rs
+     | _, _ => "badreq")
+  | _ => "badreq"
 
 end CF.Judges
